@@ -1,5 +1,6 @@
 import EduceModel.Lemmas.Env
 import EduceModel.Spec.Debug
+import EduceModel.Generated.Templates
 /-
   C06 — Debug renders the effective shape exactly like core::fmt's builders.
 
@@ -313,5 +314,18 @@ example : exDbgType.WF := by
   rcases hv with rfl | rfl | rfl <;> simp [DbgVariant.WF]
 
 example : (body exDbgType).toOption.isSome = true := by decide
+
+
+/-! ## What the generated code calls
+
+The absolute paths (`::core::..`) named by the `quote!` templates of the handler, regenerated from /repo/src on every run
+(`vtool extract`): the functions, traits and types the generated code can reach are exactly these - a call of anything
+else (`::core::ptr::eq`, `::core::fmt::Display::fmt`, `::core::convert::From::from`, ...) is a change of what the
+implementation does and has to be looked at. -/
+
+theorem generated_calls_unchanged_debug :
+    Generated.paths_trait_handlers_debug =
+      ["::core::fmt::Debug", "::core::fmt::Debug::fmt", "::core::fmt::Formatter", "::core::fmt::Result", "::core::marker::PhantomData", "::core::mem::size_of", "::core::primitive::str", "::core::primitive::u8", "::core::slice::from_raw_parts", "::core::stringify"] := by
+  decide +kernel
 
 end Educe
